@@ -312,15 +312,68 @@ func (k *checker) fail(err error) {
 	k.mu.Unlock()
 }
 
-func violationKey(seg segment, ev map[string]any) string {
+// memoryClass classifies a memory imbalance visible in the rejected event of a restart
+// trace: direction (held by nobody / released twice) and whether a connection object of
+// that transport was replaced by this very step.
+func memoryClass(seg segment, evLine []byte, ev map[string]any) string {
+	mem, ok := ev["mem"].(float64)
+	cs, _ := ev["cs"].([]any)
+	if !ok {
+		return ""
+	}
+	incs := func(cs []any) string {
+		var xs []string
+		for _, x := range cs {
+			m, _ := x.(map[string]any)
+			xs = append(xs, fmt.Sprint(m["p"], ":", m["c"]))
+		}
+		sort.Strings(xs)
+		return strings.Join(xs, ",")
+	}
+	held := 0.0
+	for _, x := range cs {
+		m, _ := x.(map[string]any)
+		t, _ := m["tot"].(float64)
+		b, _ := m["beg"].(float64)
+		held += t - b
+	}
+	if mem == held {
+		return ""
+	}
+	dir := "not-released"
+	if mem < held {
+		dir = "over-released"
+	}
+	// previous projection of the same transport
+	reset := "without-reset"
+	var prev map[string]any
+	for _, l := range seg.lines {
+		if bytes.Equal(l, evLine) {
+			break
+		}
+		var e map[string]any
+		if json.Unmarshal(l, &e) == nil && e["t"] == ev["t"] && e["cs"] != nil {
+			prev = e
+		}
+	}
+	if prev != nil {
+		pcs, _ := prev["cs"].([]any)
+		if incs(pcs) != incs(cs) {
+			reset = "on-reset"
+		}
+	}
+	return "memory-" + dir + "-" + reset
+}
+
+func violationKey(seg segment, evLine []byte, ev map[string]any) string {
 	mode := "strict"
 	if seg.sc.Restarts {
 		mode = "restarts"
 	}
 	op, _ := ev["op"].(string)
-	for _, s := range seg.res.Susp {
-		if s == "memory-accounting" && seg.sc.Restarts {
-			return "restarts/memory-not-released-on-reset"
+	if seg.sc.Restarts {
+		if mc := memoryClass(seg, evLine, ev); mc != "" {
+			return "restarts/" + mc // the leak of the unchanged tree: restarts/memory-not-released-on-reset
 		}
 	}
 	what := "step-mismatch"
@@ -379,7 +432,7 @@ func (k *checker) confirm(seg segment, why string) error {
 	var e map[string]any
 	_ = json.Unmarshal(ev, &e)
 	segs[0].res = r
-	c.Violate(violationKey(segs[0], e), fmt.Sprintf("recorded transport trace is not a behaviour of TraceUdpTransport (%s): rejected event %s; prefilter hints %v; settle=%s sent=%d delivered=%d",
+	c.Violate(violationKey(segs[0], ev, e), fmt.Sprintf("recorded transport trace is not a behaviour of TraceUdpTransport (%s): rejected event %s; prefilter hints %v; settle=%s sent=%d delivered=%d",
 		why, oneLine(string(ev), 500), r.Susp, r.Settle, r.Sent, r.Delivered), replay)
 	return nil
 }
@@ -492,7 +545,7 @@ func (m mcCfg) consts() map[string]string {
 	}
 	return map[string]string{"NT": strconv.Itoa(m.nt), "MEM": strconv.Itoa(m.mem), "MSGS": strconv.Itoa(m.msgs),
 		"FAULTS": strconv.Itoa(m.faults), "NET": strconv.Itoa(m.net), "HDR": strconv.Itoa(m.hdr),
-		"BURST": strconv.Itoa(m.burst), "CHUNKS": strconv.Itoa(m.ch), "PATIENT": p}
+		"BURST": strconv.Itoa(m.burst), "CHUNKS": strconv.Itoa(m.ch), "PATIENT": p, "SPEC": "FairSpec"}
 }
 
 func (m mcCfg) String() string {
@@ -538,7 +591,7 @@ func runC36(c *core.Ctx) error {
 				cfg = "MC_UdpTransportLive.cfg"
 			}
 			r, err := c.MustTLC(core.TLCOpts{Module: "MC_UdpTransport", Cfg: cfg, Consts: m.consts(), Workers: m.workers,
-				Coverage: m.cover, Timeout: time.Duration(c.Pick(80, 1000)) * time.Second, HeapMB: 6000})
+				Coverage: m.cover, Timeout: time.Duration(c.Pick(300, 1100)) * time.Second, HeapMB: 6000})
 			if err != nil {
 				k.fail(fmt.Errorf("%s: %v", m, err))
 				return
@@ -553,6 +606,27 @@ func runC36(c *core.Ctx) error {
 			k.mu.Unlock()
 			c.Logf("TLC %s", mcOut[i])
 		}(i, m)
+	}
+
+	// the liveness property must not be vacuous: without fairness TLC has to find a lasso
+	if c.Thorough() {
+		bg.Add(1)
+		go func() {
+			defer bg.Done()
+			m := mcCfg{nt: 2, mem: 2, msgs: 1, faults: 1, net: 2, hdr: 1, burst: 1, ch: 2, patient: true}
+			cs := m.consts()
+			cs["SPEC"] = "Spec"
+			r, err := c.TLC(core.TLCOpts{Module: "MC_UdpTransport", Cfg: "MC_UdpTransportLive.cfg", Consts: cs, Workers: 2, Timeout: 10 * time.Minute})
+			if err != nil {
+				k.fail(err)
+				return
+			}
+			if r.OK || !(r.ErrorKind == "liveness" || strings.Contains(r.ErrorText, "Temporal properties")) {
+				k.fail(fmt.Errorf("model self-test: without fairness the liveness property must fail, TLC said ok=%v kind=%s", r.OK, r.ErrorKind))
+				return
+			}
+			c.Set("selftest_liveness_fails_without_fairness", true)
+		}()
 	}
 
 	// (a) behaviours of the model as command strings
@@ -572,7 +646,7 @@ func runC36(c *core.Ctx) error {
 				defer wg.Done()
 				r, err := c.TLC(core.TLCOpts{Module: "SimUdpTransport", Cfg: "SimUdpTransport.cfg", Consts: consts, Workers: 1,
 					Simulate: fmt.Sprintf("num=%d", c.Pick(22, 220)), Depth: depth, Seed: c.Seed*1000 + int64(j),
-					Timeout: time.Duration(c.Pick(70, 600)) * time.Second, HeapMB: 2048})
+					Timeout: time.Duration(c.Pick(240, 900)) * time.Second, HeapMB: 2048})
 				if err != nil || (!r.OK && r.ErrorKind != "") {
 					if err == nil {
 						err = fmt.Errorf("%s %s", r.ErrorKind, r.ErrorText)
@@ -684,7 +758,8 @@ func runC36(c *core.Ctx) error {
 	// ---------------- evidence ----------------
 	c.Set("model_checking_runs", mcOut)
 	c.Set("model_action_coverage", cover)
-	for _, a := range []string{"NewMessage", "WriteSome", "ReadSome", "EncHdr", "Timer", "Dup", "Loss", "Settle"} {
+	// (NewMessage is reported by TLC under a location suffix; a ReadSome step needs a submitted message)
+	for _, a := range []string{"WriteSome", "ReadSome", "EncHdr", "Timer", "DupSome", "LossSome", "Settle"} {
 		if cover[a] == 0 {
 			return fmt.Errorf("vacuous: action %s was never taken in the model-checking run (coverage %v)", a, cover)
 		}
